@@ -135,6 +135,12 @@ pub fn set_mono_ns(sim_now_ns: u64) {
     let base = MONO_BASE_NS.with(|c| c.get());
     FAKE_MONO_NS.with(|c| c.set(base.saturating_add(sim_now_ns)));
 }
+pub fn mono_raw() -> u64 {
+    FAKE_MONO_NS.with(|c| c.get())
+}
+pub fn set_mono_raw(v: u64) {
+    FAKE_MONO_NS.with(|c| c.set(v));
+}
 /// called between runs: later runs on this thread see a later monotonic clock
 pub fn advance_mono_base(by_ns: u64) {
     MONO_BASE_NS.with(|c| c.set(c.get().saturating_add(by_ns)));
